@@ -197,7 +197,11 @@ class NdArr:
         val = z(val)
         if self.kind == "real" and z3.is_int(val):
             val = z3.ToReal(val)
+        old_term = self.cell.term
         self.cell.term = z3.Store(self.cell.term, *(bi + [val]))
+        hook = getattr(self.cell, "on_store", None)
+        if hook is not None:
+            hook(old_term, bi, val, self.cell.term)      # ghost counting: store lemma instance
         if self.cell.nan is not None or nanval is not False:
             self._need_nan()
             self.cell.nan = z3.Store(self.cell.nan, *(bi + [z(nanval)]))
